@@ -20,12 +20,14 @@ import logging
 import os
 import re
 import shutil
+import socket
 import tempfile
 import types
 
 from harness.common import VERIF, enc, dec, run_driver
 
 import insights.cleaner as cleaner_mod
+import insights.util.hostname as hostname_util
 from insights.cleaner import Cleaner
 from insights.cleaner.ip import IPv4
 from insights.cleaner.mac import Mac
@@ -192,14 +194,72 @@ def rm_conf_of(cfg):
     return rm
 
 
+def own_system_name(gethostname, getfqdn, ex):
+    """the harness's own statement of `determine_hostname()` called WITHOUT a display name: the canonical name of the
+    host-name lookup (`ex`, None when the lookup fails) if it is longer than the host name and not a localhost name,
+    else the FQDN under the same conditions, else the host name"""
+    ex = ex or ""
+    if len(getfqdn) > len(gethostname) or len(ex) > len(gethostname):
+        if ex and "localhost" not in ex:
+            return ex
+        if "localhost" not in getfqdn:
+            return getfqdn
+    return gethostname
+
+
+class FakeSocket(object):
+    """what insights.util.hostname sees instead of the socket module while a Cleaner without fqdn is built"""
+    gaierror = socket.gaierror
+    herror = socket.herror
+    error = socket.error
+
+    def __init__(self, sysd):
+        self.sysd = sysd
+
+    def gethostname(self):
+        return self.sysd["gethostname"]
+
+    def getfqdn(self, name=""):
+        return self.sysd["getfqdn"]
+
+    def gethostbyname_ex(self, name):
+        if self.sysd["ex"] is None:
+            raise socket.gaierror(-2, "Name or service not known")
+        return (self.sysd["ex"], [], ["192.0.2.1"])
+
+    def gethostbyname(self, name):
+        return "192.0.2.1"
+
+
 def make_cleaner(cfg):
     kw = dict(obfuscate=cfg["obfuscate"], obfuscate_hostname=cfg["hostname"], obfuscate_mac=cfg["mac"],
               obfuscate_ipv6=cfg["ipv6"])
+    sysd = cfg.get("sys")
+    if sysd:
+        # the labels a user may give the system are NOT its name
+        for opt in ("display_name", "ansible_host"):
+            if sysd.get(opt) is not None:
+                kw[opt] = sysd[opt]
     if cfg["hostname"] and not cfg["obfuscate"]:
         conf = types.SimpleNamespace(**kw)      # InsightsConfig refuses this combination; the Cleaner does not
+        if sysd:
+            for opt in ("display_name", "ansible_host"):
+                if not hasattr(conf, opt):
+                    setattr(conf, opt, None)
+    elif sysd:
+        conf = InsightsConfig(**kw)
     else:
         conf = InsightsConfig(hostname=cfg["fqdn"], **kw)
-    return Cleaner(conf, rm_conf_of(cfg), cfg["fqdn"])
+    if not sysd:
+        return Cleaner(conf, rm_conf_of(cfg), cfg["fqdn"])
+    # no fqdn argument (as insights.collect.collect() and the client's facts cleaning build it): the Cleaner asks
+    # determine_hostname(); the socket answers are those of the case
+    saved = hostname_util.socket
+    hostname_util.socket = FakeSocket(sysd)
+    try:
+        return Cleaner(conf, rm_conf_of(cfg))
+    finally:
+        hostname_util.socket = saved
 
 
 # --------------------------------------------------------------------------- implementation adapter
@@ -586,6 +646,10 @@ class Oracle(object):
                 self.fails.append(("pattern", "the implementation raised %s instead of cleaning: patterns %r each compile on their own; "
                                    "of the lines %r, %d are matched by some pattern taken by itself and %d by none — the configured patterns are not applied"
                                    % (r.raised, [q["plain"] if "plain" in q else pat_text(q) for q in pats], lines, len(gone), len(lines) - len(gone)), None))
+            if (cfg["keywords"] or []) and "keyword" not in (call["no_obfuscate"] or []):
+                # keywords are plain strings: no keyword, whatever characters it contains, may make the cleaning raise
+                self.fails.append(("keyword", "the implementation raised %s instead of cleaning with the keywords %r (plain strings; lines %r)"
+                                   % (r.raised, cfg["keywords"], lines), None))
             return self.fails
         if r.lines_out is None:
             return self.fails        # SubIPError of the width mode: nothing was produced
@@ -690,8 +754,11 @@ class Oracle(object):
                         earlier = [k for k in kws_db if k] if kw_on else []
                         if self.host_active(cfg, no_obf):
                             earlier.append(cfg["fqdn"].split(".")[0])
+                        # … or inside an earlier password unit of the same line (its secret then ends elsewhere and the
+                        # following keys are read differently): anywhere from the first key of the line to this secret
+                        first = l.find("password")
                         fid = FINDING_KW if ((kw_on and "" in kws_db) or
-                                             any(k and overlaps(l, k, k0, k1) for k in earlier)) else None
+                                             any(k and overlaps(l, k, min(first, k0), k1) for k in earlier)) else None
                         if fid is None and width_eats(case, l):
                             fid = FINDING_WIDTH        # known finding: the width-mode step removed text of the line (the key)
                         self.fails.append(("password", "secret %r of line %r occurs in the output %r" % (sec, l, text), fid))
@@ -740,6 +807,8 @@ class Oracle(object):
         def untouched(tok, l):
             if "password" not in no_obf and "password" in l:
                 return False                 # the item may be masked as (part of) a password secret
+            if call["width"] and cfg["obfuscate"] and "ip" not in no_obf and any(a != "127.0.0.1" for _, a in ipv4_loose(l)):
+                return False                 # width mode pads or deletes behind a substituted address of the line
             return quiet and not width_eats(case, l) and not any(k and k in tok for k in earlier_keys)
         def isolated(l, i, n):
             """no host-name character, word character, ':' or '-' next to l[i:i+n]: no other recogniser can take it in"""
@@ -829,6 +898,13 @@ NONASCII = [u"\xe9", u"\xa4", u"\xb7", u"ƒ", u"\xa0", u"\xdf"]
 KEYWORDS = ["secret", "tok", "abc", "web", "corp", "1.2", "ey", "user", "XY", " padded ", "ke y", u"\xe9t\xe9",
             "error", "52:54", "example", "host", "aa", "login"]
 PW_KEYWORDS = ["word", "pass", "password", "ss"]
+# keywords are PLAIN strings: regex metacharacters in them mean nothing.  (keyword, texts an expression of that
+# spelling would match but that do not contain the keyword)
+META_KEYWORDS = [("a+b", ["aab", "ab"]), ("srv[1]", ["srv1"]), ("foo(bar)", ["foobar"]), ("tok?en", ["token", "toen"]),
+                 ("US$5", ["US5", "US"]), ("a.b", ["axb", "a-b"]), ("x|y", ["x", "y"]), ("^top", ["top"]), ("end$", ["end"]),
+                 ("\\d", ["7", "d"]), ("c++", ["c", "cc"]), ("[", []), ("(", []), ("a*", ["aa", ""]), ("{2}", ["22"]),
+                 ("\\bfoo", ["foo"]), ("[a-c]", ["a", "b"]), ("q{2,3}", ["qq", "qqq"])]
+META_NEAR = dict(META_KEYWORDS)
 SECRETS = ["hunter2", "S3cr3t!", "p@ss/w0rd", "abc123", "x", "$1$abc/def", "Tr0ub4dor&3", "a=b", "(paren)", "c0rr-ect"]
 PLAIN_PATS = ["DROPME", "secret", "err", "10.", "web1", ":", "x y", "Z"]
 
@@ -976,7 +1052,10 @@ def g_line(rng, cfg, kws):
             parts.append(g_host(rng, cfg["fqdn"]))
         elif k < 12 and kws:
             kw = rng.choice(kws).strip() or "kw"
-            parts.append(rng.choice([kw, kw, "x" + kw, kw + kw, kw + "1", kw.upper()]))
+            other = rng.choice(kws).strip() or "kw"
+            near = META_NEAR.get(kw) or [kw.upper()]
+            parts.append(rng.choice([kw, kw, "x" + kw, kw + kw, kw + "1", kw.upper(), kw + other, kw + " " + kw + "," + kw,
+                                     kw[:-1] + other, rng.choice(near), rng.choice(near) + " " + kw]))
         elif k < 14:
             parts.append(g_password(rng))
         elif k == 14:
@@ -1115,6 +1194,37 @@ def g_rxlist_case(rng):
     return {"cfg": cfg, "call": call, "lines": lines, "markers": False}
 
 
+def g_sys(rng, cfg):
+    """the Cleaner is built WITHOUT fqdn: generated answers of the socket functions, labels in the configuration; the
+    case's fqdn (model parameter, oracle) becomes the name the harness's own statement of determine_hostname() gives"""
+    F = cfg["fqdn"]
+    short = F.split(".")[0]
+    k = rng.randrange(8)
+    if k == 0:
+        ans = (short, F, F)
+    elif k == 1:
+        ans = (short, F, None)                     # lookup fails
+    elif k == 2:
+        ans = (F, F, F)
+    elif k == 3:
+        ans = (short, "localhost.localdomain", F)
+    elif k == 4:
+        ans = (short, F, "localhost")
+    elif k == 5:
+        ans = (short, short, None)
+    elif k == 6:
+        ans = (short, short, "ip-10-0-0-7." + (system_domain(F) or "ec2.internal"))
+    else:
+        ans = (short, "localhost", "localhost.localdomain")
+    dom = system_domain(F)
+    labels = [None, None, "My Server 1", "disp.other.org", "web-frontend", "prod_db.example.net"]
+    if dom:
+        labels += ["label." + dom, "disp-01." + dom, short + "-alias." + dom]
+    cfg["sys"] = {"gethostname": ans[0], "getfqdn": ans[1], "ex": ans[2],
+                  "display_name": rng.choice(labels), "ansible_host": rng.choice(labels)}
+    cfg["fqdn"] = own_system_name(*ans)
+
+
 def g_case(rng, width_ok=True):
     fqdn = g_fqdn(rng)
     obf = rng.random() < 0.8
@@ -1124,10 +1234,15 @@ def g_case(rng, width_ok=True):
     if k < 5:
         pool = KEYWORDS + (PW_KEYWORDS if rng.random() < 0.08 else [])
         cfg["keywords"] = [rng.choice(pool) for _ in range(rng.choice([1, 1, 2, 3, 4]))]
+        if rng.random() < 0.35:            # metacharacters, valid and invalid as an expression
+            for _ in range(rng.choice([1, 1, 2, 3])):
+                cfg["keywords"].insert(rng.randrange(len(cfg["keywords"]) + 1), rng.choice(META_KEYWORDS)[0])
         if rng.random() < 0.03:
             cfg["keywords"].append(rng.choice(["", "  "]))
     elif k == 5:
         cfg["keywords"] = []
+    if rng.random() < 0.25:
+        g_sys(rng, cfg)
     k = rng.randrange(10)
     rich = None
     if k < 3:
@@ -1623,6 +1738,15 @@ def classify(case, r):
             if mark in txt:
                 tags.append("rxlist:feature:" + feat)
     tags.append("keywords:%d" % len(cfg["keywords"] or []))
+    if any(k in META_NEAR for k in (cfg["keywords"] or [])):
+        tags.append("keywords:with-regex-metacharacters")
+        if any(ref_compile(k) is None for k in cfg["keywords"]):
+            tags.append("keywords:not-a-valid-expression")
+    if cfg.get("sys"):
+        tags.append("system-name:determined-by-the-cleaner")
+        for opt in ("display_name", "ansible_host"):
+            if cfg["sys"].get(opt):
+                tags.append("system-name:%s-configured" % opt)
     for t in ("ip", "host", "mac", "ipv6"):
         if r.tables[t]:
             tags.append("substituted:" + t)
